@@ -38,6 +38,7 @@ SetS(t) == st' = t.st /\ sv' = t.sv
 view == <<st, sv>>
 None == "none"
 NoSnap == [k |-> "none"]
+ReadTol == 1000          \* 1e-9 relative: summation order only
 
 AllPhases == {"g", "l", "s", "L", "S"}
 PhaseOrder == <<"L", "S", "g", "l", "s">>            \* canonical (ASCII) order used in the records
@@ -161,6 +162,8 @@ Pre(s, op, a) ==
                            /\ t[a.d].pkg = t[a.x].pkg /\ Alone(t, a.d)
     [] op = "unlink" -> a.x \in Names /\ t[a.x].k = "s"
     [] op = "construct" -> a.x \in Names /\ a.k \in {"s", "m"} /\ a.price >= 0 /\ a.cf >= 0
+    \* C14: reading a derived property (an observation; the value is compared with a freshly built stream)
+    [] op = "read" -> a.x \in Names /\ ~Empty(t[a.x])
     [] OTHER -> FALSE
 
 Exc(s, op, a) == None
@@ -200,6 +203,7 @@ Post(s, op, a) ==
     [] op = "set_flow" -> [s EXCEPT !.st = PutFlow(t, a.x, [t[a.x].fl EXCEPT ![a.p][a.c] = a.v])]
     [] op = "view_write" -> [s EXCEPT !.st = PutFlow(t, a.x, [t[a.x].fl EXCEPT ![a.p][a.c] = a.v])]
     [] op = "view_read" -> s
+    [] op = "read" -> s
     [] op = "set_T" -> [s EXCEPT !.st = PutTP(t, a.x, a.T, t[a.x].P)]
     [] op = "view_set_T" -> [s EXCEPT !.st = PutTP(t, a.x, a.T, t[a.x].P)]
     [] op = "set_P" -> [s EXCEPT !.st = PutTP(t, a.x, t[a.x].T, a.P)]
@@ -338,6 +342,10 @@ Judge(s, e) ==
        ELSE IF ~FrameOK(s, e, {a.d}) THEN "frame"
        ELSE IF ~e.obs.behaves THEN "sharing.behaviour"
        ELSE "ok"
+  ELSE IF op = "read" THEN
+       \* diff: |value - value on a fresh stream with the same flows, phases, T, P| relative, in units of 1e-12
+       IF e.obs.diff > ReadTol THEN "property.stale"
+       ELSE IF u # t THEN "frame" ELSE "ok"
   ELSE IF op = "view_read" THEN
        IF e.obs.res # t[a.x].fl[a.p] THEN "view.stale"
        ELSE IF e.obs.resT # t[a.x].T THEN "view.thermal"
